@@ -1351,9 +1351,38 @@ EXPORT void sim_configure(const sim_cfg_t *c) {
 }
 
 /* start of a run: reset counters, log, arena, regions */
+/* keep the heap blocks that are still alive (a kernel may legitimately keep an allocation from one call to the
+ * next); everything else - argument regions, freed blocks - is forgotten.  returns the end of the highest live block */
+static size_t keep_live_heap(void) {
+    int n = 0;
+    size_t top = 0;
+    for (int i = 0; i < G.nreg; i++) {
+        if (G.reg[i].kind == RK_HEAP) {
+            size_t end = (size_t)(G.reg[i].hi - (uintptr_t)G.arena);
+            end = ((end + 15) & ~(size_t)15) + 16;
+            if (end > top)
+                top = end;
+            if (G.reg[i].shadow) {
+                free(G.reg[i].shadow);
+                G.reg[i].shadow = NULL;
+            }
+            G.reg[n] = G.reg[i];
+            G.reg[n].id = 900 + n; /* blocks inherited from earlier calls */
+            n++;
+        } else if (G.reg[i].shadow) {
+            free(G.reg[i].shadow);
+            G.reg[i].shadow = NULL;
+        }
+    }
+    G.nreg = n;
+    G.mru = 0;
+    return top;
+}
+
 EXPORT void sim_begin_run(void) {
+    size_t live_top;
     sim_init_once();
-    clear_regions();
+    live_top = keep_live_heap();
     G.rng = G.seed ^ 0xA5A5A5A55A5A5A5AULL;
     G.steps = 0;
     G.nswitch = 0;
@@ -1367,7 +1396,7 @@ EXPORT void sim_begin_run(void) {
     G.nest = 0;
     G.nlog = 0;
     G.log_overflow = 0;
-    G.arena_off = 0;
+    G.arena_off = live_top;
     G.nalloc = G.nrealloc_moved = G.nrealloc_stay = G.nfree = 0;
     G.next_heap_id = 0;
     G.reg_overflow = 0;
